@@ -687,7 +687,26 @@ impl ConvContext {
             }
             Declaration::Ff(x) => {
                 let mut current = init_current_ff(self, x);
-                let (reset_values, main_stmts) = split_if_reset(&x.statements);
+                // Where inside its variable a reset assignment lands: `(bit offset,
+                // slice width, variable width)`; `None` for shapes that are not a
+                // whole variable or a constant-indexed element.
+                let (variables, eval_ctx) = (&self.variables, &mut self.eval_ctx);
+                let mut resolve = |d: &air::AssignDestination| -> Option<(usize, usize, usize)> {
+                    let slot = variables.get(&d.id)?;
+                    if !d.select.is_empty() {
+                        return None;
+                    }
+                    if d.index.0.is_empty() {
+                        return Some((0, slot.width, slot.width));
+                    }
+                    if !d.index.is_const() {
+                        return None;
+                    }
+                    let indices = d.index.eval_value(eval_ctx)?;
+                    let flat = slot.shape.calc_index(&indices)?;
+                    Some((flat * slot.scalar_width, slot.scalar_width, slot.width))
+                };
+                let (reset_values, main_stmts) = split_if_reset(&x.statements, &mut resolve);
                 if let Some(reset_map) = reset_values {
                     for (vid, bits) in reset_map {
                         if let Some(pre) = self.ff_allocation.get(&vid) {
@@ -1389,12 +1408,17 @@ fn init_current_ff(ctx: &ConvContext, ff: &air::FfDeclaration) -> HashMap<air::V
 /// values and the clocked path (the else branch plus any statements trailing the
 /// `if_reset`, which Veryl allows and SV runs after the else on a clock edge).
 /// Otherwise return the body as-is with no reset values.
-fn split_if_reset(stmts: &[Statement]) -> (Option<HashMap<air::VarId, Vec<bool>>>, Vec<Statement>) {
+type ResetSlice<'a> = dyn FnMut(&air::AssignDestination) -> Option<(usize, usize, usize)> + 'a;
+
+fn split_if_reset(
+    stmts: &[Statement],
+    resolve: &mut ResetSlice,
+) -> (Option<HashMap<air::VarId, Vec<bool>>>, Vec<Statement>) {
     if let Some(Statement::IfReset(ifreset)) = stmts.first() {
         let mut main_stmts = ifreset.false_side.clone();
         main_stmts.extend_from_slice(&stmts[1..]);
         let mut reset_map: HashMap<air::VarId, Vec<bool>> = HashMap::new();
-        if extract_constant_assigns(&ifreset.true_side, &mut reset_map).is_ok() {
+        if extract_constant_assigns(&ifreset.true_side, &mut reset_map, resolve).is_ok() {
             return (Some(reset_map), main_stmts);
         }
         // Non-constant reset expression: drop the reset branch; FFs keep
@@ -1407,20 +1431,24 @@ fn split_if_reset(stmts: &[Statement]) -> (Option<HashMap<air::VarId, Vec<bool>>
 fn extract_constant_assigns(
     stmts: &[Statement],
     map: &mut HashMap<air::VarId, Vec<bool>>,
+    resolve: &mut ResetSlice,
 ) -> Result<(), ()> {
     for s in stmts {
         match s {
             Statement::Assign(a) => {
-                let width = a.width.unwrap_or(0);
-                if width == 0 {
-                    return Err(());
-                }
-                let value = eval_constant_bits(&a.expr, width).ok_or(())?;
                 for d in &a.dst {
-                    if !d.select.is_empty() || !d.index.0.is_empty() {
+                    // Whole variable or a constant-indexed array element; each
+                    // assignment fills its own slice of the variable's reset bits.
+                    let (offset, width, total) = resolve(d).ok_or(())?;
+                    if width == 0 || offset + width > total {
                         return Err(());
                     }
-                    map.insert(d.id, value.clone());
+                    let value = eval_constant_bits(&a.expr, width).ok_or(())?;
+                    let bits = map.entry(d.id).or_insert_with(|| vec![false; total]);
+                    if bits.len() < total {
+                        bits.resize(total, false);
+                    }
+                    bits[offset..offset + width].copy_from_slice(&value);
                 }
             }
             _ => return Err(()),
@@ -1435,12 +1463,17 @@ fn eval_constant_bits(expr: &air::Expression, width: usize) -> Option<Vec<bool>>
         && let Factor::Value(ct) = factor.as_ref()
     {
         let value = ct.get_value().ok()?;
-        let n = value.to_u64()?;
+        if value.is_xz() {
+            return None;
+        }
+        // `expand` also materialises the width-less `'0` / `'1` fill literals;
+        // the payload is read bit by bit so literals wider than 64 bits keep
+        // their high bits.
+        let value = value.expand(width, false);
+        let payload = value.payload();
         let mut bits = Vec::with_capacity(width);
         for i in 0..width {
-            // `n` fits in u64, so bits >= 64 are 0; the guard also avoids the
-            // `i >= 64` shift overflow (panic in debug, wrong mask in release).
-            bits.push(i < 64 && (n >> i) & 1 != 0);
+            bits.push(payload.bit(i as u64));
         }
         return Some(bits);
     }
